@@ -22,6 +22,7 @@ type Entry struct {
 // metricsdata merger ("MetricDataMerger").
 type famEnv struct {
 	dir   string
+	path  string // store path (the family's table files live in path/f)
 	store kv.Store
 	fam   kv.Family
 }
@@ -48,7 +49,7 @@ func openFamily(maxFileSize uint32, threshold int) (*famEnv, error) {
 		os.RemoveAll(dir)
 		return nil, err
 	}
-	return &famEnv{dir: dir, store: store, fam: fam}, nil
+	return &famEnv{dir: dir, path: path, store: store, fam: fam}, nil
 }
 
 func (e *famEnv) close() {
@@ -138,3 +139,44 @@ func (e *famEnv) load(metric uint32) ([][]byte, error) {
 }
 
 func tableNumber(n int64) table.FileNumber { return table.FileNumber(n) }
+
+// pickedInputs lists the files a level-0 compaction picks: every level-0 file, then the level-1 files
+// whose key range overlaps a level-0 file (both sorted by file number) — the position in this list is
+// the `i` of the protocol word `open:<i>:<kind>`.
+func pickedInputs(lv [2][]FileInfo) []FileInfo {
+	picked := append([]FileInfo(nil), lv[0]...)
+	for _, f := range lv[1] {
+		for _, g := range lv[0] {
+			if !(f.Max < g.Min || f.Min > g.Max) {
+				picked = append(picked, f)
+				break
+			}
+		}
+	}
+	return picked
+}
+
+// evictReaders drops the table readers of the files from the store's reader cache (what the cache's TTL
+// clean-up does to readers nobody holds; a restarted process has none either): the next GetReader of
+// such a file is a cache miss and opens + maps the file again.
+func (e *famEnv) evictReaders(files []FileInfo) {
+	cache := kv.VerifC02Cache(e.store)
+	if cache == nil {
+		return
+	}
+	for _, f := range files {
+		cache.Evict(version.Table(tableNumber(f.Number)))
+	}
+}
+
+// hideFile moves a table file of the family out of the store (ENOENT for the next open); the returned
+// function moves it back.
+func (e *famEnv) hideFile(number int64) (restore func(), err error) {
+	name := version.Table(tableNumber(number))
+	from := filepath.Join(e.path, "f", name)
+	to := filepath.Join(e.dir, "hidden-"+name)
+	if err := os.Rename(from, to); err != nil {
+		return nil, err
+	}
+	return func() { _ = os.Rename(to, from) }, nil
+}
